@@ -931,7 +931,10 @@ impl Storage {
         let mut batch = self.batch();
 
         for ss in scripts {
-            if ss.block_number >= to_number {
+            // The entries of a script are rolled back whatever its block number is: it could be
+            // set back by the user (to filter again) while the entries of the later blocks are
+            // still indexed.
+            {
                 let script = ss.script;
                 let mut key_prefix = vec![match ss.script_type {
                     ScriptType::Lock => KeyPrefix::TxLockScript as u8,
@@ -1059,7 +1062,7 @@ impl Storage {
                     });
 
                 // update script filter block number
-                {
+                if ss.block_number >= to_number {
                     let mut key = Key::Meta(FILTER_SCRIPTS_KEY).into_vec();
                     key.extend_from_slice(script.as_slice());
                     key.extend_from_slice(match ss.script_type {
